@@ -39,8 +39,11 @@ CHECKS = {
             "as C04"),
     "C06": ("model_checking", REPLAY_TECH, "5/C06",
             "Kraus sets of 1-4 operators on 1-2 subsystems (bit flip, dephasing, amplitude damping, loss, correlated and "
-            "asymmetric two-subsystem sets, single unitaries) at three entry points; exact sum K rho K^dagger as an ensemble",
-            "lattice channels; targets <= 2"),
+            "asymmetric two-subsystem sets, single unitaries) at three entry points; exact sum K rho K^dagger as an ensemble. "
+            "Off the lattice (random and very weak channels, strengths 2e-6 .. 0.3, every target kind x storage x level x entry "
+            "point x contraction switch): the same rule evaluated in float64 on the joint state recorded before the call, "
+            "deviation logged in units of 1e-9 and judged by TLC (clause ChannelMatchesModel of PWContract.tla)",
+            "lattice channels exactly (targets <= 2); off-lattice channels to 1e-5 on joint spaces of dimension <= 600"),
     "C07": ("model_checking", TRACE_TECH, "5/C07",
             "TagMatchesRepr, ShapeIsProduct, MembersShareLevel, NumericOK evaluated by TLC on the projection after every "
             "recorded call, including continuous-parameter programs (Displace, Squeeze, random unitaries / channels / POVMs)",
@@ -58,8 +61,14 @@ CHECKS = {
     "C10": ("model_checking", REPLAY_TECH, "5/C10",
             "resize at three entry points for n in 0..Dim+1: return value TRUE iff n exceeds the highest occupied level "
             "(computed exactly in the specification), dimension after success, joint state unchanged; ladder / phase / "
-            "beam-splitter operations lose no population (joint density equal after zero padding); clause ResizeReturn",
-            "truncation threshold of Displace / Squeeze is not decided (transcendental amplitudes)"),
+            "beam-splitter operations lose no population (joint density equal after zero padding); clause ResizeReturn. "
+            "Automatic cutoff of Displace / Squeeze: on continuous-parameter programs and on a scenario grid (operand states "
+            "x parameters incl. negative / complex x storage x level x entry point, one Operation object applied to a "
+            "sequence of operands) the harness evaluates U = exp(generator of Gates.tla) 60 levels above the chosen cutoff "
+            "on the reduced state recorded before the call and logs the population beyond the cutoff and the entry-wise "
+            "deviation; TLC judges them (clause CutoffAdequate: tail <= 1e-5, ten times the documented 1e-6, deviation <= 3e-3)",
+            "Expresion-type Fock operations and |alpha| > 2, |zeta| > 0.8 are not explored; the ideal result is itself a "
+            "float64 computation at cutoff + 60"),
     "C11": ("model_checking", REPLAY_TECH, "5/C11",
             "beam splitter defined in Gates.tla by the SU(2) mode transformation (not by expm): TLC action properties "
             "PassiveConservesNumber / PhaseConservesNumber on every transition; replay compares the joint state after each "
